@@ -85,6 +85,10 @@ class Member:
         c = self.consumer
         try:
             while self.alive:
+                if getattr(self, "pause_until", 0) > self.now():
+                    # the application is busy with something else and does not poll for a while
+                    await asyncio.sleep(self.pause_until - self.now())
+                    self.events.append((self.now(), "polling_resumed"))
                 try:
                     d = await c.getmany(timeout_ms=50, max_records=self.cfg.get("max_records"))
                 except E.ConsumerStoppedError:
@@ -119,6 +123,10 @@ class Member:
         self.events.append((self.now(), "stop_returned", self.stop_result))
         if self.app is not None:
             self.app.cancel()
+
+    def pause_polling(self, seconds):
+        self.pause_until = self.now() + seconds
+        self.events.append((self.now(), "polling_paused", seconds))
 
     def crash(self):
         """kill without leave and without final commit: the member's network goes dark and its
